@@ -66,6 +66,8 @@ func main() {
 		cmdHarness(os.Args[2:])
 	case "run":
 		cmdRun(os.Args[2:])
+	case "replay":
+		cmdReplay(os.Args[2:])
 	default:
 		fmt.Fprintln(os.Stderr, "unknown command")
 		os.Exit(2)
